@@ -333,6 +333,10 @@ def exec_real(case):
     E = exc_class(case.get("exc", "runtime"))
     desc = dict(case)
     desc["failing_item"] = list(fail)
+    import signal
+
+    # every case starts from the default disposition of SIGCHLD (nothing an earlier case did to the process carries over)
+    signal.signal(signal.SIGCHLD, signal.SIG_DFL)
     with fresh_dir("c19r-") as d:
         rec = FileRecorder(os.path.join(d, "log"), fail_at=fail, fail_exc=E)
         status, exc, hang = "returned", None, None
@@ -340,6 +344,20 @@ def exec_real(case):
         saved = os.dup(2)
         os.dup2(devnull, 2)  # the failing worker prints its traceback
         try:
+            if case.get("prior"):
+                # an EARLIER parallel walk in this process failed too, and its caller handled the error: the operation under
+                # test must report its own failure all the same
+                from toasty.pyramid import Pyramid
+
+                prec = FileRecorder(os.path.join(d, "prior-log"), fail_at=(1, 0, 0), fail_exc=RuntimeError)
+                try:
+                    with watchdog(40):
+                        Pyramid.new_generic(2).walk(prec.walk_cb, parallel=2)
+                except WatchdogExpired:
+                    pass
+                except Exception:  # noqa
+                    pass
+                reap_children(1)
             with watchdog(40):
                 if stage == "walk":
                     scen.make_pyramid(case).walk(rec.walk_cb, parallel=k)
@@ -360,7 +378,7 @@ def exec_real(case):
     if status == "inconclusive":
         return Outcome(classes=["realmp", "watchdog-inconclusive"], nontrivial=False)
     judge(desc, status, exc, hang)
-    return Outcome(classes=["realmp", stage, f"k{k}", "exc:" + case.get("exc", "runtime")], nontrivial=fail != order[0], info={"raised": type(exc).__name__})
+    return Outcome(classes=["realmp", stage, f"k{k}", "exc:" + case.get("exc", "runtime")] + (["after-an-earlier-failed-walk"] if case.get("prior") else []), nontrivial=fail != order[0], info={"raised": type(exc).__name__})
 
 
 @st.composite
@@ -372,6 +390,10 @@ def strat_real(draw, tier):
     case["stage"] = draw(st.sampled_from(["walk", "leaves"]))
     case["fail_idx"] = draw(st.integers(0, 2000))
     case["exc"] = draw(st.sampled_from(["runtime", "os", "value", "key", "kill"]))
+    if draw(st.booleans()):
+        case["prior"] = True
+        if draw(st.booleans()):
+            case["stage"] = "leaves"
     return case
 
 
@@ -424,7 +446,7 @@ PARTS = [
         "fail_one_item_realmp",
         exec_real,
         strategy=strat_real,
-        examples={"quick": 32, "thorough": 400},
+        examples={"quick": 48, "thorough": 400},
         shards={"quick": 8, "thorough": 16},
         budget_s={"quick": 70, "thorough": 1500},
         shrink=False,
